@@ -41,7 +41,9 @@ class C05(Monitor):
         if s.kind == 'call' and s.op == 'acknowledge_received_data' and s.ok:
             n, sid = s.args['n'], s.args['sid']
             cr[0] = cr.get(0, 0) + n
-            cr[sid] = cr.get(sid, 0) + n
+            pre = s.pre.get(sid)
+            if pre is not None and pre.state in ('open', 'hcL', 'hcR'):
+                cr[sid] = cr.get(sid, 0) + n
             a = self.acked[ep]
             a[sid] = a.get(sid, 0) + n
         if self.manual[ep] or trk.dead:
@@ -55,8 +57,26 @@ class C05(Monitor):
             if inc > have:
                 self.fail('over-credit', 'WINDOW_UPDATE increment exceeds acknowledged bytes', s,
                           sid=f.sid, inc=inc, acknowledged=have)
-            cr[f.sid] = have - inc
+            cr[f.sid] = max(have - inc, 0)
             self.probe('auto_window_update')
+            # an update hands back everything acknowledged so far, unless that would lift the window above its
+            # maximum (then the rest is dropped for good)
+            if f.sid == 0:
+                at_max = trk.conn_recv >= 65535
+            else:
+                st = trk.get(f.sid)
+                at_max = st is None or st.recv_win >= trk.mine[C.S_INITIAL_WINDOW_SIZE] or bool(trk.sent_settings)
+            if at_max:
+                cr[f.sid] = 0
+            elif cr[f.sid] > 0 and inc <= have:
+                self.fail('under-credit', 'WINDOW_UPDATE hands back less than was acknowledged although the window stays below its maximum', s,
+                          sid=f.sid, inc=inc, acknowledged=have)
+        # nothing is owed while a window is at its maximum (the library drops such credit)
+        if trk.conn_recv >= 65535:
+            cr[0] = 0
+        for st in trk.streams.values():
+            if st.state != 'closed' and st.recv_win >= trk.mine[C.S_INITIAL_WINDOW_SIZE] and cr.get(st.sid):
+                cr[st.sid] = 0
         # advertised windows never above their maximum
         if trk.conn_recv > 65535 or trk.conn_recv > MAXW:
             self.fail('above-maximum', 'connection window above its maximum', s, window=trk.conn_recv)
